@@ -110,6 +110,7 @@ type Exec struct {
 	fsTrace     []fsEvent
 	fsSeq       int
 	fsModelOn   bool
+	fsStatFromWalk bool
 	fsFaultBudget int
 	stubSeq     int
 	callerFile  Str
